@@ -5,6 +5,7 @@ import (
 	"fmt"
 	"io"
 	"strings"
+	"sync"
 )
 
 type TemplateWriter interface {
@@ -36,6 +37,12 @@ type Template struct {
 	// Calculation
 	tokens []*Token
 	parser *Parser
+
+	// The TrimBlocks/LStripBlocks options rewrite the text tokens. Each rewrite
+	// is done at most once per template (it is not idempotent), under this mutex.
+	blockOptionsMutex sync.Mutex
+	trimBlocksDone    bool
+	lstripBlocksDone  bool
 
 	// first come, first serve (it's important to not override existing entries in here)
 	level          int
@@ -95,7 +102,10 @@ func newTemplate(set *TemplateSet, name string, isTplString bool, tpl []byte) (*
 }
 
 func (tpl *Template) newContextForExecution(context Context) (*Template, *ExecutionContext, error) {
-	if tpl.Options.TrimBlocks || tpl.Options.LStripBlocks {
+	tpl.blockOptionsMutex.Lock()
+	lstrip := tpl.Options.LStripBlocks && !tpl.lstripBlocksDone
+	trim := tpl.Options.TrimBlocks && !tpl.trimBlocksDone
+	if trim || lstrip {
 		// Issue #94 https://github.com/flosch/pongo2/issues/94
 		// If an application configures pongo2 template to trim_blocks,
 		// the first newline after a template tag is removed automatically (like in PHP).
@@ -105,13 +115,13 @@ func (tpl *Template) newContextForExecution(context Context) (*Template, *Execut
 		}
 
 		for _, t := range tpl.tokens {
-			if tpl.Options.LStripBlocks {
+			if lstrip {
 				if prev.Typ == TokenHTML && t.Typ != TokenHTML && t.Val == "{%" {
 					prev.Val = strings.TrimRight(prev.Val, "\t ")
 				}
 			}
 
-			if tpl.Options.TrimBlocks {
+			if trim {
 				if prev.Typ != TokenHTML && t.Typ == TokenHTML && prev.Val == "%}" {
 					if len(t.Val) > 0 && t.Val[0] == '\n' {
 						t.Val = t.Val[1:len(t.Val)]
@@ -121,7 +131,10 @@ func (tpl *Template) newContextForExecution(context Context) (*Template, *Execut
 
 			prev = t
 		}
+		tpl.lstripBlocksDone = tpl.lstripBlocksDone || lstrip
+		tpl.trimBlocksDone = tpl.trimBlocksDone || trim
 	}
+	tpl.blockOptionsMutex.Unlock()
 
 	// Determine the parent to be executed (for template inheritance)
 	parent := tpl
